@@ -7,7 +7,7 @@ from amoco.ui.render import Token, TokenListJoin
 
 def mnemo(i):
     m = i.mnemonic.replace("DW_OP_", "")
-    return [(Token.Mnemonic, "%s" % (m.lower()).ljust(12))]
+    return [(Token.Mnemonic, "%s " % (m.lower()).ljust(11))]
 
 
 def mnemo_lit(i):
